@@ -138,21 +138,28 @@ def run_case(rng, res, idx, tier):
                 return res.violation(f'step {st} (factor-update step={fstep}), rank {r}: {got_vol} elements allreduced on the default group, expected {exp_vol} '
                                      f'(each factor exactly once; symmetric={sym})', case, step=st)
             col_exp = {}
+            root_exp = {}
             row_exp = 0
             for n in names:
                 na, ng = shapes[n][0][0], shapes[n][1][0]
                 C = cols[n]
                 if istep and k > 1 and r in C:
                     if cfg['method'] == 'inverse':
-                        v = (tri(na) + tri(ng)) if sym else (na * na + ng * ng)
+                        va, vg = ((tri(na), tri(ng)) if sym else (na * na, ng * ng))
                     elif cfg['prediv']:
-                        v = na * na + ng * ng + ng * na
+                        va, vg = na * na, ng * ng + ng * na
                     else:
-                        v = na * na + na + ng * ng + ng
+                        va, vg = na * na + na, ng * ng + ng
+                    v = va + vg
                     col_exp[C] = col_exp.get(C, 0) + v
+                    # second-order data of a factor comes from the inverse worker of THAT factor (volume per root, order-free)
+                    inv_n = recs[0]['assignment'][n]['inv']
+                    for f_, vol in (('A', va), ('G', vg)):
+                        root_exp[(C, inv_n[f_])] = root_exp.get((C, inv_n[f_]), 0) + vol
                 if k < W:
                     row_exp += recs[0]['grad_numel'][n]
             col_got = {}
+            root_got = {}
             row_got = 0
             for e in other:
                 mem = frozenset(e['group_ranks'])
@@ -162,6 +169,7 @@ def run_case(rng, res, idx, tier):
                 is_row = mem in rows
                 if is_col:
                     col_got[mem] = col_got.get(mem, 0) + e['numel']
+                    root_got[(mem, e['root'])] = root_got.get((mem, e['root']), 0) + e['numel']
                     if not istep:
                         return res.violation(f'step {st}, rank {r}: broadcast on gradient-worker group {sorted(mem)} on a step that is not an inverse-update step', case, step=st)
                     roots = {recs[0]['assignment'][n]['inv'][f] for n in names if cols[n] == mem for f in recs[0]['assignment'][n]['inv']}
@@ -178,17 +186,14 @@ def run_case(rng, res, idx, tier):
                 return res.violation(f'step {st}, rank {r}: inverse broadcasts under MEM-OPT', case, step=st)
             if k == W and row_got:
                 return res.violation(f'step {st}, rank {r}: gradient broadcasts under COMM-OPT', case, step=st)
-            if not ambiguous(W, k):
-                if col_got != col_exp:
-                    return res.violation(f'step {st} (inverse-update step={istep}), rank {r}: inverse broadcast volume per group {[(sorted(a), b) for a, b in col_got.items()]}, '
-                                         f'expected {[(sorted(a), b) for a, b in col_exp.items()]}', case, step=st)
-                if row_got != row_exp:
-                    return res.violation(f'step {st}, rank {r}: {row_got} gradient elements broadcast in the receiver group, expected {row_exp}', case, step=st)
-            else:
-                tot_exp = sum(col_exp.values()) + row_exp
-                tot_got = sum(col_got.values()) + row_got
-                if tot_exp != tot_got:
-                    return res.violation(f'step {st}, rank {r}: total sub-group broadcast volume {tot_got}, expected {tot_exp}', case, step=st)
+            if col_got != col_exp:
+                return res.violation(f'step {st} (inverse-update step={istep}), rank {r}: inverse broadcast volume per group {[(sorted(a), b) for a, b in col_got.items()]}, '
+                                     f'expected {[(sorted(a), b) for a, b in col_exp.items()]}', case, step=st)
+            if root_got != root_exp:
+                return res.violation(f'step {st}, rank {r}: inverse broadcast volume per (group, root) {[(sorted(a), ro, b) for (a, ro), b in sorted(root_got.items(), key=str)]}, expected '
+                                     f'{[(sorted(a), ro, b) for (a, ro), b in sorted(root_exp.items(), key=str)]}: second-order data of a factor must come from the inverse worker of that factor', case, step=st)
+            if row_got != row_exp:
+                return res.violation(f'step {st}, rank {r}: {row_got} gradient elements broadcast in the receiver group, expected {row_exp}', case, step=st)
     if W > 1:
         res.nontrivial.add(stable_hash(W, k, cfg['method'], cfg['prediv'], cfg['sym'], cfg['colocate'], cfg['F'], cfg['I'], cfg['cap'] > 0, cfg['hook'], load_at is not None))
         if load_at is not None:
@@ -210,11 +215,6 @@ def run_case(rng, res, idx, tier):
             if held_checks([g['rec'] for g in gres], W, k, names, nsteps, res, case, where='real gloo world: ') is not True:
                 return
     res.sample(dict(idx=idx, W=W, k=k, steps=nsteps, cfg={kk: cfg[kk] for kk in ('method', 'prediv', 'sym', 'colocate', 'F', 'I', 'cap', 'hook')}))
-
-
-def ambiguous(W, k):
-    """Column and row groups have the same member sets only if both are the whole world (W=1) - never for W>1."""
-    return False
 
 
 def plan(tier, seed):
